@@ -579,10 +579,36 @@ fn do_write_sync(ctx: &Ctx, s: &WriteSpec) -> Out {
         (WEntry::OneShotAlgo, Some(k)) => cacache::write_sync_with_algo(s.algo.to_lib(), cache, ctx.key(k), &data[..]),
         (WEntry::OneShotAlgo, None) => cacache::write_hash_sync_with_algo(s.algo.to_lib(), cache, &data[..]),
         _ => {
+            // other writers already open in this process
+            let other = other_blob(ctx, s.blob);
+            let mut crowd: Vec<cacache::SyncWriter> = Vec::new();
+            for _ in 0..s.crowd {
+                match cacache::WriteOpts::new().size(other.len()).open_hash_sync(cache) {
+                    Ok(w) => crowd.push(w),
+                    Err(e) => return err_out(e),
+                }
+            }
             let mut w = match open_sync_writer(ctx, s, &data) {
                 Ok(w) => w,
                 Err(e) => return err_out(e),
             };
+            let finish_crowd = move |crowd: Vec<cacache::SyncWriter>| {
+                for mut c in crowd {
+                    if c.write_all(&other).is_ok() {
+                        let _ = c.commit();
+                    }
+                }
+            };
+            let finish_crowd = std::cell::Cell::new(Some((finish_crowd, crowd)));
+            struct Fin<'a, F: FnOnce(Vec<cacache::SyncWriter>)>(&'a std::cell::Cell<Option<(F, Vec<cacache::SyncWriter>)>>);
+            impl<F: FnOnce(Vec<cacache::SyncWriter>)> Drop for Fin<'_, F> {
+                fn drop(&mut self) {
+                    if let Some((f, c)) = self.0.take() {
+                        f(c)
+                    }
+                }
+            }
+            let _fin = Fin(&finish_crowd);
             for (ci, ch) in cut_chunks(&data, &s.chunks).into_iter().enumerate() {
                 let r = if s.vectored > 0 { sync_write_chunk_vectored(&mut w, ch, s.vectored as usize) } else { sync_write_chunk(&mut w, ch) };
                 if let Err(e) = r {
@@ -619,11 +645,38 @@ async fn do_write_async(ctx: &Ctx<'_>, s: &WriteSpec) -> Out {
         (WEntry::OneShotAlgo, Some(k)) => cacache::write_with_algo(s.algo.to_lib(), cache, ctx.key(k), &data[..]).await,
         (WEntry::OneShotAlgo, None) => cacache::write_hash_with_algo(s.algo.to_lib(), cache, &data[..]).await,
         _ => {
-            let mut w = match open_async_writer(ctx, s, &data).await {
+            let other = other_blob(ctx, s.blob);
+            let mut crowd: Vec<cacache::Writer> = Vec::new();
+            for _ in 0..s.crowd {
+                match cacache::WriteOpts::new().size(other.len()).open_hash(cache).await {
+                    Ok(w) => crowd.push(w),
+                    Err(e) => return err_out(e),
+                }
+            }
+            let r = do_write_async_inner(ctx, s, &data).await;
+            for mut c in crowd {
+                if c.write_all(&other).await.is_ok() {
+                    let _ = c.commit().await;
+                }
+            }
+            return r;
+        }
+    };
+    match r {
+        Ok(sri) => Out::Int(sri.to_string()),
+        Err(e) => err_out(e),
+    }
+}
+
+/// The streamed async write proper (open, chunks, commit).
+async fn do_write_async_inner(ctx: &Ctx<'_>, s: &WriteSpec, data: &[u8]) -> Out {
+    let r = {
+        {
+            let mut w = match open_async_writer(ctx, s, data).await {
                 Ok(w) => w,
                 Err(e) => return err_out(e),
             };
-            for (ci, ch) in cut_chunks(&data, &s.chunks).into_iter().enumerate() {
+            for (ci, ch) in cut_chunks(data, &s.chunks).into_iter().enumerate() {
                 let mut ch = ch;
                 // (only with plain writes: what is offered after a cancelled write must be the same
                 // buffer - a different one makes the library write it on top of the cancelled data,
